@@ -211,12 +211,58 @@ def generate(tier, seed):
                 [[[[1, 3]], '-'], [[[3, 3]], '+']], [[[[0, 3], [3, 6]], '-'], [[[6, 7]], '+']]):
         cases.append(dict(op='gen', ref='ACGTNAc', txs=txs))
 
+    # ---- str routes 3 / 4: several chromosomes; the genome of the intervals lists them in another order / a subset / sorted
+    NAMES = ['chr2', 'chr10', 'chr1', 'chrX', 'chrM']
+    for i in range(40 if quick else 300):
+        k = rng.randint(2, 5)
+        names = NAMES[:k]
+        rng.shuffle(names)
+        chroms = [[n, rstr(rng.randint(3, 14), ALPH[2] if i % 3 else ALPH[2].upper())] for n in names]
+        route = 3 if i % 2 else 4
+        if route == 3:
+            order = list(names)
+            mode = i % 8
+            if mode == 1:
+                rng.shuffle(order)
+            elif mode == 3:
+                order = order[::-1]
+            elif mode == 5:
+                order = sorted(order)
+            else:
+                order = rng.sample(order, rng.randint(1, k))      # a subset, in any order
+            usable = order
+        else:
+            order, usable = None, names
+        off, pos = {}, 0
+        for n, sq in chroms:
+            off[n] = pos
+            pos += len(sq)
+        seqd = dict(chroms)
+        civs = []
+        for _ in range(rng.randint(1, 7)):
+            c = rng.choice(usable)
+            L = len(seqd[c])
+            a = rng.randint(0, L)
+            b = rng.randint(a, L) if rng.random() < 0.85 else a
+            civs.append([c, a, b, '-' if rng.random() < 0.5 else '+'])
+        civs.append([usable[0], 0, len(seqd[usable[0]]), '-'])        # keeps the set outside the known-finding class
+        c = dict(op='str', route=route, enc=2, ref=''.join(sq for n, sq in chroms),
+                 ivs=[[off[cn] + a, off[cn] + b, st] for cn, a, b, st in civs], chroms=chroms, civs=civs)
+        if route == 3:
+            c['order'] = order
+        else:
+            c['sort_names'] = bool(i % 4 == 0)
+        cases.append(c)
+
     # ---- seq: several calls on the SAME objects (x built once, r = a kept reverse complement of x): operands must stay
     #      unchanged and every later result must equal the result on a fresh copy
     PROGRAMS = [['tr:x', 'tr:x'], ['tr:x', 'rc:x'], ['tr:x', 'read:x'], ['tr:x', 'keep_rc', 'tr:r'],
                 ['keep_rc', 'tr:r', 'tr:r', 'read:r'], ['keep_rc', 'tr:r', 'rc:r'], ['rc:x', 'tr:x', 'rc:x', 'tr:x'],
                 ['tr:x', 'read:x', 'tr:x', 'rc:x', 'read:x', 'keep_rc', 'tr:r', 'rc:r', 'read:r', 'tr:x'],
-                ['keep_rc', 'tr:x', 'tr:r', 'read:x', 'read:r'], ['read:x', 'tr:x', 'keep_rc', 'rc:r', 'tr:x']]
+                ['keep_rc', 'tr:x', 'tr:r', 'read:x', 'read:r'], ['read:x', 'tr:x', 'keep_rc', 'rc:r', 'tr:x'],
+                # results kept over later calls on ANOTHER input (b = the rows in reverse order) of the same total size
+                ['keep_rc', 'rc:b', 'read:r'], ['keep_rc', 'rc:b', 'tr:r', 'rc:r'], ['rc:b', 'keep_rc', 'rc:b', 'tr:b', 'read:r', 'rc:x'],
+                ['keep_rc', 'tr:b', 'rc:b', 'rc:r', 'read:r', 'read:x']]
     bases = [CODONS[:16], ['ATGGCCTTTAAATAGTTT', '', 'acgGGGtga', 'ATG'], [''.join(CODONS), ''.join(reversed(CODONS))], ['ACGTTT']]
     for i in range(8 if quick else 60):
         bases.append([''.join(ch.lower() if (i % 2 and rng.random() < 0.4) else ch
@@ -352,6 +398,24 @@ def observe(case):
             out['once'].append([0, flat])
         except Exception as e:
             out['once'].append(_err(e))
+        # results KEPT over a later call on OTHER sequences of the same encoding and the same total number of bases,
+        # then read: the ragged result, and every flat result
+        other = [s[::-1] for s in rows[::-1]]
+        try:
+            ra = get_reverse_complement(fresh())
+            get_reverse_complement(enc_arr(other))
+            rb = get_reverse_complement(enc_arr([_rc(s) for s in rows]))
+            _rows(rb)
+            out['once'].append([0, _rows(ra)])
+        except Exception as e:
+            out['once'].append(_err(e))
+        try:
+            kept = [get_reverse_complement(enc_arr(x)) for x in rows]
+            for x in rows:
+                get_reverse_complement(enc_arr(_rc(x))).to_string()
+            out['once'].append([0, [fr.to_string().encode('latin1').hex() for fr in kept]])
+        except Exception as e:
+            out['once'].append(_err(e))
         # the dataclass route (sequence column is ASCII); with a row view the dataclass itself is indexed
         if case['enc'] == 0 and rows:
             try:
@@ -420,6 +484,14 @@ def observe(case):
                     R['r'] = None
                 continue
             what, obj = st.split(':')
+            if obj == 'b':          # another input: the same rows in reverse order (same encoding, same total size)
+                if 'b' not in R:
+                    rb = _eff(case)[::-1]
+                    R['b'] = (SequenceEntry.from_entry_tuples([('b%d' % i, s) for i, s in enumerate(rb)])
+                              if case['container'] == 'se' else as_encoded_array(rb))
+                f = get_reverse_complement if what == 'rc' else translate_dna_to_protein
+                steps.append([5 if what == 'rc' else 6, ob(lambda t=R['b'], f=f: seq_of(f(t)))])
+                continue
             if obj == 'r' and R.get('r') is None:
                 steps.append([{'tr': 3, 'read': 2, 'rc': 4}[what], [9, []]])
                 continue
@@ -467,8 +539,44 @@ def observe(case):
     # ---- stranded extraction
     ref, ivs, route = case['ref'], case['ivs'], case['route']
     out = dict(bio=[(_bio_rc(ref[a:b]) if st == '-' else ref[a:b]).encode().hex() for a, b, st in ivs])
-    I = StrandedInterval.from_entry_tuples([('c', a, b, st) for a, b, st in ivs])
     d = None
+    if route in (3, 4):
+        # several chromosomes; case['ref'] / case['ivs'] are the concatenation and the global coordinates (what goes to Coq),
+        # case['chroms'] / case['civs'] what the library sees
+        from bionumpy.genomic_data.genomic_sequence import GenomicSequence
+        chroms, civs = case['chroms'], case['civs']
+        seqd = {n: s for n, s in chroms}
+        try:
+            if route == 3:
+                from bionumpy.genomic_data import GenomicIntervals
+                from bionumpy.genomic_data.genome_context import GenomeContext
+                ctx = GenomeContext.from_dict({n: len(seqd[n]) for n in case['order']})
+                gi = GenomicIntervals.from_fields(ctx, [c for c, a, b, st in civs], [a for c, a, b, st in civs],
+                                                  [b for c, a, b, st in civs], [st for c, a, b, st in civs])
+                gs = GenomicSequence.from_dict(seqd)
+                r = gs[gi]
+                r2 = gs.extract_intervals(gi, stranded=True)
+                rows1, rows2 = _rows(r), _rows(r2)
+                out['o'] = [0 if rows1 == rows2 and len(rows1) == len(civs) else 9, rows1]
+            else:
+                d = tempfile.mkdtemp(prefix='c14_')
+                path = os.path.join(d, 'g.fa')
+                with open(path, 'w') as f:
+                    for n, s in chroms:
+                        w = 1 + len(s) % 5
+                        f.write('>%s\n' % n + ''.join(s[i:i + w] + '\n' for i in range(0, len(s), w)))
+                g = bnp.Genome.from_file(path, sort_names=case['sort_names'], filter_function=lambda x: True)
+                I = StrandedInterval.from_entry_tuples([(c, a, b, st) for c, a, b, st in civs])
+                r = g.read_sequence()[g.get_intervals(I, stranded=True)]
+                out['o'] = [0 if len(r) == len(civs) else 9, _rows(r)]
+        except Exception as e:
+            out['o'] = _err(e)
+        finally:
+            if d:
+                shutil.rmtree(d, ignore_errors=True)
+        return out
+    I = StrandedInterval.from_entry_tuples([('c', a, b, st) for a, b, st in ivs])
+    I_other = StrandedInterval.from_entry_tuples([('c', a, b, st) for a, b, st in ivs[::-1]])
     try:
         if route == 0:
             enc = encs[case['enc']]
@@ -485,6 +593,10 @@ def observe(case):
             else:
                 refarr = E(ref)
             r = get_strand_specific_sequences(refarr, I)
+            try:                                   # a later call on other intervals of the same total size; r is read afterwards
+                _rows(get_strand_specific_sequences(refarr, I_other))
+            except Exception:
+                pass
         elif route == 1:
             from bionumpy.genomic_data.genomic_sequence import GenomicSequence
             r = GenomicSequence.from_dict({'c': ref, 'd': 'GGGG'}).extract_intervals(I, stranded=True)
